@@ -19,6 +19,14 @@ FLOORS = {'quick': {'distinct_nontrivial': 500, 'with_legend': 100},
           'thorough': {'distinct_nontrivial': 10000, 'with_legend': 2000}}
 COLORS = ['black', 'white', 'red', '#abc', '#102030', 'rgb(1,2,3)', 'navy', 'pink']
 FONTS = ['Arial', 'monospace', 'Iosevka Fixed, monospace', 'Foo Bar, serif']
+# "random colour/font/stroke strings": any text a caller may hand over (the CLI passes its arguments through)
+STRING_TOKENS = ['<', '>', '&', '"', "'", ';', '{', '}', '</style>', '<rect x="0" y="0" width="9" height="9"/>', ']]>', '/*', '*/', '\u00e9', '\u65e5',
+                 ' ', ',', '\\', 'a', 'Z', '0', '#', '(', ')', '&amp;', '&#60;', '<!--', '-->', '<?x?>', 'url(x)', '!important', ':']
+
+
+def random_string(rng):
+    s = ''.join(rng.choice(STRING_TOKENS) for _ in range(rng.randint(1, 6))).strip()
+    return s or rng.choice(['"', "'", '<'])
 
 
 def tree(doc):
@@ -133,6 +141,11 @@ def run_shard(ctx, shard):
             s += '# Legend:\na = {fill:red}\nbig = {stroke: blue}\n'
         st = {'fill': rng.choice(COLORS), 'bg': rng.choice(COLORS), 'sc': rng.choice(COLORS), 'ff': rng.choice(FONTS),
               'fs': rng.choice([8, 10, 14, 30]), 'sw': rng.choice([1.0, 2.0, 2.5, 0.25])}
+        if rng.random() < 0.25:
+            for f in ('fill', 'bg', 'sc', 'ff'):
+                if rng.random() < 0.6:
+                    st[f] = random_string(rng)
+            ctx.tag('arbitrary_setting_strings')
         case = {'input': s, 'settings': st, 'ow': rng.choice([123.0, 77.5, 1.0, 4096.0, 0.5]), 'oh': rng.choice([77.5, 16.0, 1000.0, 0.25])}
         ctx.run_case(case)
         if i == 0:
